@@ -132,8 +132,14 @@ def flip(b, i):
 class Gen:
     def __init__(self, ctx, cvs, run_c):
         self.ctx, self.rng, self.cvs, self.run_c = ctx, ctx.rng, cvs, run_c
-        self.thorough = ctx.tier == "thorough"
+        self.tt = ctx.tier == "thorough"
+        self.thorough = self.tt
         self.cov = {}
+
+    def mode(self, cv):
+        """the thorough tier runs its full budgets on l = 128 and four times the quick sample on l = 192, 256
+        (the code is generic in l; the model costs 0.15-0.3 s per verification there)"""
+        self.thorough = self.tt and cv.ci == 0
 
     def w(self, cv, full, mid=None, small=None):
         """budget: thorough -> full; quick -> full on l=128, less on l=192/256 (the code is generic in l)"""
@@ -154,12 +160,10 @@ class Gen:
         """positions of single-bit alterations: all in the thorough tier on l = 128 (a dense sample on l = 192, 256:
         the code is generic in l and the model costs 0.1-0.3 s per verification there), a sample (always incl. the
         first and the last bit) in the quick tier"""
-        if (self.thorough and cv.ci == 0) or nbits <= quick_n:
+        if self.thorough or nbits <= quick_n:
             return list(range(nbits))
-        if self.thorough:
-            quick_n = max(quick_n, 96)
-            if nbits <= quick_n:
-                return list(range(nbits))
+        if self.tt:
+            quick_n = min(nbits, 4 * quick_n)
         s = {0, nbits - 1}
         while len(s) < quick_n:
             s.add(self.rng.randrange(nbits))
@@ -193,6 +197,7 @@ class Gen:
             meta.append(m)
 
         for cv in self.cvs:
+            self.mode(cv)
             ci, no, q = cv.ci, cv.no, cv.q
             add("params %d" % ci, kind="params")
             ds = [1, q - 1, self.rscalar(cv)] + ([self.rscalar(cv) for _ in range(3)] if self.thorough else [])
@@ -338,6 +343,8 @@ class Gen:
             w = o.split()
             k = m.get("kind")
             cv = m.get("cv")
+            if cv is not None:
+                self.mode(cv)
             if k == "kgen" and w[0] == "0":
                 kp = unh(w[1])
                 add("kval %d %s %s" % (cv.ci, hx(kp[:cv.no]), hx(kp[cv.no:])), kind="kval-gen", cv=cv, expect=OK)
@@ -361,7 +368,7 @@ class Gen:
             self.count("vfy:" + lab)
 
         v(oid, H, sig, Q, "genuine")
-        if self.thorough or n <= 3:
+        if n <= (6 if self.thorough else 3):
             add("idext %d %s %s %s %s" % (ci, hx(oid), hx(H), hx(sig), hx(Q)), kind="idext", cv=cv, oid=oid, idH=H, sig=sig, Q=Q, d=d)
         s1 = int.from_bytes(sig[h2:], "little")
         alts = [("s1=q", q), ("s1+q", s1 + q), ("s1=max", cv.W - 1), ("s1=0", 0), ("s1+1", (s1 + 1) % q)]
@@ -377,11 +384,11 @@ class Gen:
             v(oid, flip(H, self.rng.randrange(8 * no)), sig, Q, "bit:hash")
             return
         if self.thorough and n != 1:
-            self.thorough = False       # every bit only for the first signature of each curve
+            self.thorough, self.tt, tt = False, False, self.tt       # every bit only for the first signature
             try:
                 return self.sig_cases(cv, m, sig, add, 1)
             finally:
-                self.thorough = True
+                self.thorough, self.tt = True, tt
         for i in self.bits(cv, 12 * no, self.w(cv, 24, 10, 8)):
             v(oid, H, flip(sig, i), Q, "bit:sig")
         for i in self.bits(cv, 8 * no, self.w(cv, 12, 5, 4)):
@@ -454,6 +461,7 @@ class Gen:
             if m.get("kind") != "idext" or w[0] != "0":
                 continue
             cv = m["cv"]
+            self.mode(cv)
             n = cnt[cv.ci] = cnt.get(cv.ci, 0) + 1
             no = cv.no
             kp = unh(w[1])
@@ -461,7 +469,7 @@ class Gen:
             m = dict(m, e=e, R=R)
             del m["kind"]
             hs = self.hashes(cv)
-            for H in hs[2:6] if self.thorough else [hs[2], hs[4]] if (n == 1 and cv.ci == 0) else [hs[self.rng.choice([2, 4, 5])]]:
+            for H in (hs[2:6] if self.thorough else [hs[2], hs[4]]) if (n == 1 and (cv.ci == 0 or self.thorough)) else [hs[self.rng.choice([2, 4, 5])]]:
                 lab, t = self.rng.choice(self.tapes(cv, False))
                 add("idsign %d %s %s %s %s %s" % (cv.ci, hx(m["oid"]), hx(m["idH"]), hx(H), hx(e), hx(t)), kind="idsign", H=H, **m)
                 tt = self.rng.choice(["N", "-", hx(self.rb(self.rng.choice([1, 32, 45])))])
@@ -485,6 +493,7 @@ class Gen:
             if m.get("kind") != "idsign" or w[0] != "0":
                 continue
             cv = m["cv"]
+            self.mode(cv)
             n = cnt[cv.ci] = cnt.get(cv.ci, 0) + 1
             ci, no, q = cv.ci, cv.no, cv.q
             oid, idH, H, R, Q = m["oid"], m["idH"], m["H"], m["R"], m["Q"]
